@@ -50,28 +50,30 @@ fn one() -> f64 {
 }
 
 pub fn gen_lsp(t: &mut Tape, m: usize) -> Vec<f64> {
+    gen_lsp_kind(t, m, false)
+}
+
+/// `spread_only`: no regular and no crowded sets (used together with gains above 1e6, where the
+/// rounding of the gain representation is amplified by every resonance of the filter).
+pub fn gen_lsp_kind(t: &mut Tape, m: usize, spread_only: bool) -> Vec<f64> {
     // increasing frequencies with spacing >= min_gap: distribute the slack randomly
     let min_gap = 1.01 * PI / (4.0 * (m as f64 + 1.0));
     let slack = PI - (m as f64 + 1.0) * min_gap;
     // a third of the sets are crowded: most gaps stay close to the minimum and a few take the
     // slack, which gives strongly resonant (but legal) filters
-    // one set in ten is REGULAR: equally spaced frequencies - the neutral comb i*pi/(m+1) (a flat
-    // spectrum), the same comb shifted by a fraction of its spacing, or another common spacing with
-    // an arbitrary start; only the first of these is flat
-    if t.chance(0.1) {
+    // one set in ten is REGULAR: the neutral comb i*pi/(m+1) (a flat spectrum) or the same comb
+    // shifted by a fraction of its spacing (not flat at all). Other common spacings are NOT generated:
+    // equally spaced sets packed to one side of the band are ill-conditioned beyond what the
+    // measurement window resolves (see DESIGN.md 6.3)
+    if t.chance(0.1) && !spread_only {
         let neutral = PI / (m as f64 + 1.0);
-        let (gap, start) = match t.weighted(&[1, 3, 2]) {
-            0 => (neutral, neutral),
-            1 => (neutral, (1.0 + if t.chance(0.5) { t.uniform(0.02, 0.7) } else { -t.uniform(0.02, 0.7) }) * neutral),
-            _ => {
-                let g = t.uniform(min_gap, (PI - 2.0 * min_gap) / (m as f64 - 1.0).max(1.0));
-                let room = PI - 2.0 * min_gap - (m as f64 - 1.0) * g;
-                (g, min_gap + t.unit() * room.max(0.0))
-            }
+        let start = match t.weighted(&[1, 3]) {
+            0 => neutral,
+            _ => (1.0 + if t.chance(0.5) { t.uniform(0.02, 0.7) } else { -t.uniform(0.02, 0.7) }) * neutral,
         };
-        return (0..m).map(|i| start + i as f64 * gap).collect();
+        return (0..m).map(|i| start + i as f64 * neutral).collect();
     }
-    let crowded = t.chance(0.33);
+    let crowded = t.chance(0.33) && !spread_only;
     let parts: Vec<f64> = (0..=m).map(|_| if crowded { t.unit().powi(6) + 0.002 } else { t.unit() + 0.05 }).collect();
     let total: f64 = parts.iter().sum();
     let mut w = Vec::with_capacity(m);
@@ -91,7 +93,7 @@ impl Prop for LspSpectrum {
         "lsp-spectrum".into()
     }
     fn rule(&self) -> String {
-        "LSP order 2..24 (even and odd), stage 1..4, alpha in {0} u [0,0.6], linear or log gain in [0.3,3] (15 %: log-uniform in [1e-9,1e6]), increasing LSPs with random (a third: crowded, strongly resonant; a tenth: equally spaced - the neutral comb, shifted combs, other common spacings) spacing >= 1.01*pi/(4(m+1)); pulse response (frame 1 and 2) finite, decaying and with log-magnitude ln K - s ln|A(e^{j w~})| within 0.001 neper on the frequencies within 100 dB of the peak. Non-trivial: reference response decays inside the window".into()
+        "LSP order 2..24 (even and odd), stage 1..4, alpha in {0} u [0,0.6], linear or log gain in [0.3,3] (15 %: log-uniform in [1e-12,1e10], 5 %: in [1e8,1e10]; above 1e6 only with evenly spread sets), increasing LSPs with random (a third: crowded, strongly resonant; a tenth: equally spaced - the neutral comb i pi/(m+1) and the same comb shifted by 2..70 % of its spacing) spacing >= 1.01*pi/(4(m+1)); pulse response (frame 1 and 2) finite, decaying and with log-magnitude ln K - s ln|A(e^{j w~})| within 0.001 neper on the frequencies within 100 dB of the peak. Non-trivial: reference response decays inside the window".into()
     }
     fn tape_len(&self, _: Tier) -> usize {
         72
@@ -110,13 +112,15 @@ impl Prop for LspSpectrum {
         };
         // incl. the exact identity values (K = 1, log gain 0) and other exactly representable gains
         // the filter is linear in K: very small and very large gains must realise the same shape
-        let gain = match t.weighted(&[4, 13, 3]) {
+        let gain = match t.weighted(&[4, 12, 3, 1]) {
             0 => *t.pick(&[1.0, 0.5, 2.0, 0.25]),
             1 => t.log_uniform(0.3, 3.0),
-            _ => t.log_uniform(1e-9, 1e6),
+            2 => t.log_uniform(1e-12, 1e10),
+            // very loud frames (the filter is linear in K; guards with absolute constants are not)
+            _ => t.log_uniform(1e8, 1e10),
         };
         let mut lsp = vec![if use_log_gain { gain.ln() } else { gain }];
-        lsp.extend(gen_lsp(t, m));
+        lsp.extend(gen_lsp_kind(t, m, gain > 1e6));
         let decoy = if t.chance(0.3) { Some((t.urange(1, 4), gen_alpha(t))) } else { None };
         let volume = if t.chance(0.6) { 1.0 } else { t.log_uniform(0.05, 20.0) };
         Case { rate, alpha, stage, use_log_gain, lsp, decoy, volume }
@@ -171,7 +175,12 @@ impl Prop for LspSpectrum {
                 let q = h.len() - h.len() / 4;
                 let tail: f64 = h[q..].iter().map(|x| x * x).sum();
                 let total: f64 = h.iter().map(|x| x * x).sum();
-                ensure!(tail <= 1e-6 * total, "lsp-spectrum", "{}: the response does not decay: {:e} of its energy lies in the last quarter of the window although the model response has died out (order {}, stage {}, alpha {})", name, tail / total, c.lsp.len() - 1, c.stage, c.alpha);
+                // ... to the degree the model response itself has: its own last quarter may still hold
+                // a few 1e-6 of the energy while next to nothing (< 1e-10) lies beyond the window
+                let rtail: f64 = r[q..].iter().map(|x| x * x).sum();
+                let rtotal: f64 = r.iter().map(|x| x * x).sum();
+                let allowed = (1e-6f64).max(10.0 * rtail / rtotal);
+                ensure!(tail <= allowed * total, "lsp-spectrum", "{}: the response does not decay: {:e} of its energy lies in the last quarter of the window, the model response has {:e} there and nothing beyond (order {}, stage {}, alpha {})", name, tail / total, rtail / rtotal, c.lsp.len() - 1, c.stage, c.alpha);
             }
             // spectrum: both truncated to the same window, so truncation cancels
             let mut worst = (0.0f64, 0.0f64);
@@ -179,7 +188,12 @@ impl Prop for LspSpectrum {
                 if *level < floor {
                     continue;
                 }
-                let tol = 0.001 + 2e-8 * (peak - level).exp();
+                // the generalized-cepstral gain term is (K^gamma - 1)/gamma with gamma = -1/s: recovering
+                // K^(-1/s) from it costs log10(K^(1/s)) digits, i.e. a relative error of eps x K^(1/s)
+                // per conversion (4e-5 at K = 4e11, stage 1; a deviation of 1.1e-3 neper was measured
+                // there on the unchanged tree). The tolerance carries that conditioning term; it is
+                // below 1e-5 neper for K^(1/s) < 1e9
+                let tol = 0.001 + 2e-8 * (peak - level).exp() + 100.0 * f64::EPSILON * gain.powf(1.0 / c.stage as f64);
                 let e = (dft_logmag(h, *w) - dft_logmag(r, *w)).abs();
                 if e / tol > worst.0 || e.is_nan() {
                     worst = (e / tol, *w);
